@@ -1960,3 +1960,411 @@ Proof.
     unfold is_rir. cbn. exact Hnr. }
   inversion H; subst. apply fx_refl.
 Qed.
+
+(* ================================================================== *)
+(* 12. step, decomposed: term prologue + body                          *)
+(* ================================================================== *)
+
+Definition step_prologue (r : raft) (m : msg) : Res (raft * N + raft) :=
+  let t := m_type m in
+  if m_term m =? 0 then Ok (inr r)
+  else if r_term r <? m_term m then
+    let is_vote_req := (t =? MsgRequestVote) || (t =? MsgRequestPreVote) in
+    let force := list_eqb (m_context m) CAMPAIGN_TRANSFER in
+    let in_lease := r_check_quorum r && negb (r_leader_id r =? INVALID_ID)
+                    && (r_election_elapsed r <? r_election_timeout r) in
+    if is_vote_req && negb force && in_lease then Ok (inl (r, E_OK))
+    else if (t =? MsgRequestPreVote)
+            || ((t =? MsgRequestPreVoteResponse) && negb (m_reject m))
+    then Ok (inr r)
+    else if (t =? MsgAppend) || (t =? MsgHeartbeat) || (t =? MsgSnapshot)
+    then r' <- become_follower r (m_term m) (m_from m) ;; Ok (inr r')
+    else r' <- become_follower r (m_term m) INVALID_ID ;; Ok (inr r')
+  else if m_term m <? r_term r then
+    if (r_check_quorum r || r_pre_vote r) && ((t =? MsgHeartbeat) || (t =? MsgAppend)) then
+      r' <- send r (new_message (m_from m) MsgAppendResponse None) ;; Ok (inl (r', E_OK))
+    else if t =? MsgRequestPreVote then
+      r' <- send r ((new_message (m_from m) MsgRequestPreVoteResponse None)
+                      <| m_term := r_term r |> <| m_reject := true |>) ;;
+      Ok (inl (r', E_OK))
+    else Ok (inl (r, E_OK))
+  else Ok (inr r).
+
+Definition step_body (r : raft) (m : msg) : Res (raft * N) :=
+  let t := m_type m in
+  if t =? MsgHup then r' <- hup r false ;; Ok (r', E_OK)
+  else if (t =? MsgRequestVote) || (t =? MsgRequestPreVote) then
+    let can_vote := (r_vote r =? m_from m)
+                    || ((r_vote r =? INVALID_ID) && (r_leader_id r =? INVALID_ID))
+                    || ((t =? MsgRequestPreVote) && (r_term r <? m_term m)) in
+    utd <- is_up_to_date (r_log r) (m_index m) (m_log_term m) ;;
+    rt <- vote_resp_msg_type t ;;
+    if can_vote && utd
+       && ((last_index (r_log r) <? m_index m) || (r_priority r <=? get_priority m)%Z)
+    then
+      r1 <- send r ((new_message (m_from m) rt None) <| m_reject := false |>
+                      <| m_term := m_term m |>) ;;
+      if t =? MsgRequestVote
+      then Ok (r1 <| r_election_elapsed := 0 |> <| r_vote := m_from m |>, E_OK)
+      else Ok (r1, E_OK)
+    else
+      ci <- commit_info (r_log r) ;;
+      r1 <- send r ((new_message (m_from m) rt None) <| m_reject := true |>
+                      <| m_term := r_term r |> <| m_commit := fst ci |>
+                      <| m_commit_term := snd ci |>) ;;
+      r2 <- maybe_commit_by_vote r1 m ;; Ok (r2, E_OK)
+  else step_role r m.
+
+Lemma step_decompose r m :
+  step r m = pre <- step_prologue r m ;;
+             match pre with inl ret => Ok ret | inr r1 => step_body r1 m end.
+Proof. reflexivity. Qed.
+
+(* the prologue either returns early having queued at most one message that is not a
+   MsgReadIndexResp, or continues with the same state, or continues as a follower of a
+   strictly higher term with every pending read dropped *)
+Lemma step_prologue_spec r m pre :
+  step_prologue r m = Ok pre ->
+  match pre with
+  | inl (r1, c) => lf r r1 /\ c = E_OK
+  | inr r1 => r1 = r \/
+              (r_term r < m_term m /\ exists l, become_follower r (m_term m) l = Ok r1)
+  end.
+Proof.
+  unfold step_prologue. intros H.
+  destruct (m_term m =? 0); [inversion H; auto|].
+  destruct (r_term r <? m_term m) eqn:Elt.
+  - apply N.ltb_lt in Elt. cif H; [inversion H; split; [apply lf_refl|reflexivity]|].
+    cif H; [inversion H; auto|].
+    cif H; inv_bind H; inversion H; subst; right; split; eauto.
+  - destruct (m_term m <? r_term r); [|inversion H; auto].
+    cif H.
+    + inv_bind H. inversion H; subst. split; [|reflexivity]. eapply send_lf; [eassumption|reflexivity].
+    + cif H.
+      * inv_bind H. inversion H; subst. split; [|reflexivity]. eapply send_lf; [eassumption|reflexivity].
+      * inversion H; subst. split; [apply lf_refl|reflexivity].
+Qed.
+
+Lemma vote_resp_not_rir t rt : vote_resp_msg_type t = Ok rt -> (rt =? MsgReadIndexResp) = false.
+Proof.
+  unfold vote_resp_msg_type. destruct (t =? MsgRequestVote); [intros H; inversion H; reflexivity|].
+  destruct (t =? MsgRequestPreVote); [intros H; inversion H; reflexivity|discriminate].
+Qed.
+
+(* MsgHup and vote requests *)
+Lemma step_body_election_fx r m r' c :
+  (m_type m =? MsgHup) || (m_type m =? MsgRequestVote) || (m_type m =? MsgRequestPreVote) = true ->
+  step_body r m = Ok (r', c) -> fx r r'.
+Proof.
+  intros Hty H. unfold step_body in H.
+  destruct (m_type m =? MsgHup).
+  { inv_bind H. inversion H; subst. eapply hup_fx; eassumption. }
+  cbn [orb] in Hty. rewrite Hty in H.
+  inv_bind H. inv_bind H. apply vote_resp_not_rir in Hx0.
+  cif H.
+  - inv_bind H. apply send_lf in Hx1; [|unfold is_rir; cbn; exact Hx0]. apply lf_fx in Hx1.
+    destruct (m_type m =? MsgRequestVote); inversion H; subst; [|exact Hx1].
+    eapply fx_trans; [exact Hx1|]. fx_solve.
+  - inv_bind H. inv_bind H. inv_bind H. inversion H; subst.
+    apply send_lf in Hx2; [|unfold is_rir; cbn; exact Hx0]. apply lf_fx in Hx2.
+    eapply fx_trans; [exact Hx2|]. eapply maybe_commit_by_vote_fx; eassumption.
+Qed.
+
+Definition read_type (t : N) : bool :=
+  (t =? MsgReadIndex) || (t =? MsgHeartbeatResponse) || (t =? MsgReadIndexResp).
+
+Lemma step_role_other_fx r m r' c :
+  read_type (m_type m) = false -> step_role r m = Ok (r', c) -> fx r r'.
+Proof.
+  unfold read_type. intros Hty H.
+  apply orb_false_elim in Hty. destruct Hty as [Hty H3]. apply orb_false_elim in Hty. destruct Hty as [H1 H2].
+  unfold step_role in H. destruct (r_state r).
+  - eapply step_follower_other_fx; eassumption.
+  - eapply step_candidate_fx; eassumption.
+  - eapply step_leader_other_fx; eassumption.
+  - eapply step_candidate_fx; eassumption.
+Qed.
+
+Lemma step_body_other_fx r m r' c :
+  read_type (m_type m) = false -> step_body r m = Ok (r', c) -> fx r r'.
+Proof.
+  intros Hty H.
+  destruct ((m_type m =? MsgHup) || (m_type m =? MsgRequestVote) || (m_type m =? MsgRequestPreVote)) eqn:E.
+  - eapply step_body_election_fx; eassumption.
+  - apply orb_false_elim in E. destruct E as [E E3]. apply orb_false_elim in E. destruct E as [E1 E2].
+    unfold step_body in H. rewrite E1, E2, E3 in H. cbn [orb] in H.
+    eapply step_role_other_fx; eassumption.
+Qed.
+
+Lemma step_body_read_type r m :
+  read_type (m_type m) = true -> step_body r m = step_role r m.
+Proof.
+  unfold read_type, step_body. intros H.
+  destruct (m_type m =? MsgReadIndex) eqn:E1.
+  { apply N.eqb_eq in E1. rewrite E1. reflexivity. }
+  destruct (m_type m =? MsgHeartbeatResponse) eqn:E2.
+  { apply N.eqb_eq in E2. rewrite E2. reflexivity. }
+  cbn [orb] in H. apply N.eqb_eq in H. rewrite H. reflexivity.
+Qed.
+
+(* C08: every message that is not one of the three read-index message types leaves the read
+   states alone, keeps or drops (as a whole) the pending reads, never lowers the commit index
+   and queues no MsgReadIndexResp *)
+Theorem step_other_fx r m r' c :
+  read_type (m_type m) = false -> step r m = Ok (r', c) -> fx r r'.
+Proof.
+  intros Hty H. rewrite step_decompose in H. inv_bind H. apply step_prologue_spec in Hx.
+  destruct x as [[r1 c1]|r1].
+  - inversion H; subst. apply lf_fx. apply Hx.
+  - apply step_body_other_fx in H; [|exact Hty].
+    destruct Hx as [-> |(_ & l & Hbf)]; [exact H|].
+    eapply fx_trans; [eapply become_follower_fx; eassumption|exact H].
+Qed.
+
+(* ================================================================== *)
+(* 13. the three read-index message types, per role                    *)
+(* ================================================================== *)
+
+Definition gx (r r' : raft) : Prop :=
+  committed (r_log r) <= committed (r_log r') /\ r_id r' = r_id r /\
+  ro_option (r_read_only r') = ro_option (r_read_only r) /\
+  (RoInv (r_read_only r) -> RoInv (r_read_only r')).
+
+Lemma gx_refl r : gx r r.
+Proof. unfold gx. split; [lia|]. split; [reflexivity|]. split; [reflexivity|auto]. Qed.
+
+Lemma gx_trans a b c : gx a b -> gx b c -> gx a c.
+Proof.
+  intros (A1 & A2 & A3 & A4) (B1 & B2 & B3 & B4). unfold gx.
+  split; [lia|]. split; [congruence|]. split; [congruence|auto].
+Qed.
+
+Lemma fx_gx r r' : fx r r' -> gx r r'.
+Proof.
+  intros (A & _ & B & C0 & _). unfold gx. split; [exact A|]. split; [exact C0|].
+  destruct B as [B|B]; rewrite B; split; auto. intros _. apply RoInv_new.
+Qed.
+
+(* answering at once = respond_reads on the single status (request, commit index) *)
+Lemma answer_now_exact r m r' c :
+  readindex_answer_now r m = Ok (r', c) ->
+  c = E_OK /\
+  r' = r <| r_read_states := r_read_states r ++ rr_states (r_id r) [mkRIS m (committed (r_log r)) []] |>
+         <| r_msgs := r_msgs r ++ rr_msgs r [mkRIS m (committed (r_log r)) []] |>.
+Proof.
+  unfold readindex_answer_now. intros H. inv_bind H. destruct x as [r1 om]. inv_bind H.
+  inversion H; subst. split; [reflexivity|].
+  apply (respond_reads_exact [mkRIS m (committed (r_log r)) []]).
+  cbn [respond_reads ris_req ris_index]. rewrite Hx. cbn [bind]. rewrite Hx0. reflexivity.
+Qed.
+
+(* where new read states and new MsgReadIndexResp messages come from *)
+Definition read_origin (r : raft) (m : msg) (r' : raft) (new : list read_state) (newm : list msg) : Prop :=
+  (* nothing *)
+  (new = [] /\ newm = []) \/
+  (* a follower receives the answer to a request it forwarded *)
+  (m_type m = MsgReadIndexResp /\ r_state r = Follower /\ newm = [] /\
+   exists e, m_entries m = [e] /\ new = [mkRS (m_index m) (e_data e)]) \/
+  (* a leader that needs no quorum round (single voter, or LeaseBased) answers at once *)
+  (m_type m = MsgReadIndex /\ r_state r = Leader /\ commit_to_current_term r = Ok true /\
+   (singleton_conf r = true \/ ro_option (r_read_only r) <> 0) /\
+   new = rr_states (r_id r) [mkRIS m (committed (r_log r)) []] /\
+   newm = rr_msgs r [mkRIS m (committed (r_log r)) []]) \/
+  (* a Safe leader releases pending requests on a quorum of heartbeat acks *)
+  (m_type m = MsgHeartbeatResponse /\ r_state r = Leader /\
+   ro_option (r_read_only r) = 0 /\ m_context m <> [] /\ get_pr r (m_from m) <> None /\
+   exists rs served,
+     ro_find (ro_pending (r_read_only r)) (m_context m) = Some rs /\
+     prs_has_quorum (r_prs r) (IdSet.insert (m_from m) (ris_acks rs)) = true /\
+     ro_advance (hbr_ack r m) (m_context m) = Ok (r_read_only r', served) /\
+     new = rr_states (r_id r) served /\ newm = rr_msgs r served).
+
+Lemma hbr_ack_props r m :
+  ro_option (hbr_ack r m) = ro_option (r_read_only r) /\
+  (RoInv (r_read_only r) -> RoInv (hbr_ack r m)).
+Proof.
+  unfold hbr_ack. destruct (ro_recv_ack_spec (r_read_only r) (m_from m) (m_context m)) as (_ & A & _).
+  split; [exact A|]. apply ro_recv_ack_RoInv.
+Qed.
+
+Lemma step_leader_read r m r' c :
+  read_type (m_type m) = true -> r_state r = Leader -> step_leader r m = Ok (r', c) ->
+  gx r r' /\ r_state r' = Leader /\ exists new newm,
+    r_read_states r' = r_read_states r ++ new /\ rir (r_msgs r') = rir (r_msgs r) ++ newm /\
+    read_origin r m r' new newm.
+Proof.
+  unfold read_type. intros Hty Hs H.
+  assert (Hnone : r' = r -> gx r r' /\ r_state r' = Leader /\ exists new newm,
+    r_read_states r' = r_read_states r ++ new /\ rir (r_msgs r') = rir (r_msgs r) ++ newm /\
+    read_origin r m r' new newm).
+  { intros ->. split; [apply gx_refl|]. split; [exact Hs|]. exists [], []. rewrite !app_nil_r.
+    split; [reflexivity|]. split; [reflexivity|]. left. auto. }
+  destruct (m_type m =? MsgReadIndex) eqn:E1.
+  { apply N.eqb_eq in E1. rewrite step_leader_readindex_eq in H by exact E1.
+    unfold step_leader_readindex in H. inv_bind H. destruct x; cbn [negb] in H.
+    2:{ inversion H; subst. apply Hnone. reflexivity. }
+    assert (Hnow : readindex_answer_now r m = Ok (r', c) ->
+                   (singleton_conf r = true \/ ro_option (r_read_only r) <> 0) ->
+      gx r r' /\ r_state r' = Leader /\ exists new newm,
+        r_read_states r' = r_read_states r ++ new /\ rir (r_msgs r') = rir (r_msgs r) ++ newm /\
+        read_origin r m r' new newm).
+    { intros Hn Hmode. apply answer_now_exact in Hn. destruct Hn as [_ ->].
+      split; [unfold gx; cbn; split; [lia|]; split; [reflexivity|]; split; [reflexivity|auto]|].
+      split; [exact Hs|].
+      eexists _, _. cbn -[rr_states rr_msgs rir]. split; [reflexivity|].
+      split; [rewrite rir_app, rr_msgs_all_rir; reflexivity|].
+      right. right. left. auto 10. }
+    destruct (singleton_conf r) eqn:Esing; [apply Hnow; auto|].
+    destruct (ro_option (r_read_only r) =? 0) eqn:Eo.
+    2:{ apply Hnow; [exact H|]. right. apply N.eqb_neq. exact Eo. }
+    inv_bind H. inv_bind H. inv_bind H. inversion H; subst. clear H.
+    apply bcast_heartbeat_with_ctx_exact in Hx2. rewrite Hx2. cbn.
+    split.
+    { unfold gx. cbn. split; [lia|]. split; [reflexivity|]. split.
+      - apply ro_add_request_spec in Hx1.
+        destruct Hx1 as (e & rest & _ & [(st & _ & ->)|(_ & ->)]); reflexivity.
+      - intros Hinv. eapply ro_add_request_RoInv; eassumption. }
+    split; [exact Hs|]. exists [], []. rewrite !app_nil_r. split; [reflexivity|].
+    split; [rewrite rir_app, rir_hb_list, app_nil_r; reflexivity|]. left. auto. }
+  destruct (m_type m =? MsgHeartbeatResponse) eqn:E2.
+  { apply N.eqb_eq in E2. unfold step_leader in H. rewrite E2 in H.
+    change (MsgHeartbeatResponse =? MsgBeat) with false in H.
+    change (MsgHeartbeatResponse =? MsgCheckQuorum) with false in H.
+    change (MsgHeartbeatResponse =? MsgPropose) with false in H.
+    change (MsgHeartbeatResponse =? MsgReadIndex) with false in H.
+    change (MsgHeartbeatResponse =? MsgAppendResponse) with false in H.
+    change (MsgHeartbeatResponse =? MsgHeartbeatResponse) with true in H. cbv iota in H.
+    inv_bind H. inversion H; subst. clear H.
+    apply readindex_served_needs_quorum in Hx.
+    destruct Hx as (served & Hrs & Hrir & Hl & Ht & Hst & Hi & Hcases).
+    destruct (hbr_ack_props r m) as [Hao Hai].
+    split.
+    { unfold gx. rewrite Hl. split; [lia|]. split; [exact Hi|].
+      destruct Hcases as [(_ & -> & _)|[(_ & -> & _)|(_ & _ & _ & rs & _ & _ & Hadv)]]; auto.
+      split.
+      - apply ro_advance_sub in Hadv. destruct Hadv as (A & _). congruence.
+      - intros Hinv. eapply ro_advance_RoInv; [exact Hadv|]. auto. }
+    split; [congruence|]. exists (rr_states (r_id r) served), (rr_msgs r served).
+    split; [exact Hrs|]. split; [exact Hrir|].
+    destruct Hcases as [(-> & _)|[(-> & _)|(Ho & Hne & Htr & rs & Hf & Hq & Hadv)]].
+    - left. auto.
+    - left. auto.
+    - right. right. right. split; [exact E2|]. split; [exact Hs|]. split; [exact Ho|].
+      split; [exact Hne|]. split; [exact Htr|]. exists rs, served. auto 10. }
+  cbn [orb] in Hty. apply N.eqb_eq in Hty. unfold step_leader in H. rewrite Hty in H. cbn in H.
+  inversion H; subst. apply Hnone. reflexivity.
+Qed.
+
+Lemma read_origin_none r m r' : read_origin r m r' [] [].
+Proof. left. auto. Qed.
+
+Lemma step_candidate_read r m r' c :
+  read_type (m_type m) = true -> step_candidate r m = Ok (r', c) -> r' = r.
+Proof.
+  unfold read_type. intros Hty H.
+  assert (Hc : forall t, t = MsgReadIndex \/ t = MsgHeartbeatResponse \/ t = MsgReadIndexResp ->
+    (t =? MsgPropose) = false /\ ((t =? MsgAppend) || (t =? MsgHeartbeat) || (t =? MsgSnapshot)) = false /\
+    ((t =? MsgRequestPreVoteResponse) || (t =? MsgRequestVoteResponse)) = false).
+  { intros t [-> |[-> | ->]]; repeat split; reflexivity. }
+  assert (Ht : m_type m = MsgReadIndex \/ m_type m = MsgHeartbeatResponse \/ m_type m = MsgReadIndexResp).
+  { destruct (m_type m =? MsgReadIndex) eqn:E1; [left; apply N.eqb_eq; exact E1|].
+    destruct (m_type m =? MsgHeartbeatResponse) eqn:E2; [right; left; apply N.eqb_eq; exact E2|].
+    right; right. apply N.eqb_eq. exact Hty. }
+  destruct (Hc _ Ht) as (A & B & C0). unfold step_candidate in H. rewrite A, B, C0 in H.
+  inversion H. reflexivity.
+Qed.
+
+Lemma step_follower_read r m r' c :
+  read_type (m_type m) = true -> r_state r = Follower -> step_follower r m = Ok (r', c) ->
+  gx r r' /\ r_state r' = Follower /\ exists new newm,
+    r_read_states r' = r_read_states r ++ new /\ rir (r_msgs r') = rir (r_msgs r) ++ newm /\
+    read_origin r m r' new newm.
+Proof.
+  unfold read_type. intros Hty Hs H.
+  destruct (m_type m =? MsgReadIndexResp) eqn:E3.
+  - apply N.eqb_eq in E3. rewrite follower_readindex_resp in H by exact E3.
+    destruct (m_entries m) as [|e [|e2 rest]] eqn:Ee.
+    + inversion H; subst. split; [apply gx_refl|]. split; [exact Hs|]. exists [], [].
+      rewrite !app_nil_r. auto using read_origin_none.
+    + inv_bind H. inversion H; subst. clear H. destruct x as [l' b]. apply log_maybe_commit_le in Hx.
+      split; [unfold gx; cbn; split; [exact Hx|]; split; [reflexivity|]; split; [reflexivity|auto]|].
+      split; [exact Hs|]. exists [mkRS (m_index m) (e_data e)], []. cbn. rewrite app_nil_r.
+      split; [reflexivity|]. split; [reflexivity|]. right. left.
+      split; [exact E3|]. split; [exact Hs|]. split; [reflexivity|]. exists e. auto.
+    + inversion H; subst. split; [apply gx_refl|]. split; [exact Hs|]. exists [], [].
+      rewrite !app_nil_r. auto using read_origin_none.
+  - rewrite orb_false_r in Hty.
+    assert (Hlf : lf r r').
+    { destruct (m_type m =? MsgReadIndex) eqn:E1.
+      - apply N.eqb_eq in E1. rewrite follower_readindex_forward in H by exact E1.
+        destruct (r_leader_id r =? INVALID_ID); [inversion H; subst; apply lf_refl|].
+        inv_bind H. inversion H; subst. eapply send_lf; [eassumption|].
+        unfold is_rir. cbn. rewrite E1. reflexivity.
+      - cbn [orb] in Hty. apply N.eqb_eq in Hty. unfold step_follower in H. rewrite Hty in H.
+        cbn in H. inversion H; subst. apply lf_refl. }
+    split; [apply fx_gx; apply lf_fx; exact Hlf|].
+    destruct Hlf as (_ & _ & Hrs & _ & _ & Hst & _ & _ & Hrir).
+    split; [congruence|]. exists [], []. rewrite !app_nil_r. auto using read_origin_none.
+Qed.
+
+Lemma step_role_read r m r' c :
+  read_type (m_type m) = true -> step_role r m = Ok (r', c) ->
+  gx r r' /\ exists new newm,
+    r_read_states r' = r_read_states r ++ new /\ rir (r_msgs r') = rir (r_msgs r) ++ newm /\
+    read_origin r m r' new newm.
+Proof.
+  intros Hty H. unfold step_role in H.
+  assert (Hcand : step_candidate r m = Ok (r', c) ->
+    gx r r' /\ exists new newm,
+      r_read_states r' = r_read_states r ++ new /\ rir (r_msgs r') = rir (r_msgs r) ++ newm /\
+      read_origin r m r' new newm).
+  { intros Hc. apply step_candidate_read in Hc; [|exact Hty]. subst r'. split; [apply gx_refl|].
+    exists [], []. rewrite !app_nil_r. auto using read_origin_none. }
+  destruct (r_state r) eqn:Es; auto.
+  - destruct (step_follower_read r m r' c Hty Es H) as (A & _ & B). auto.
+  - destruct (step_leader_read r m r' c Hty Es H) as (A & _ & B). auto.
+Qed.
+
+(* C08: the complete account of what a step does to the read states, to the queued
+   MsgReadIndexResp messages, to the commit index and to the ReadOnly bookkeeping.
+   [r1] is the state after the term prologue: [r] itself, or [r] turned follower of the
+   strictly higher term of [m] (which has dropped every pending read). *)
+Theorem step_read_origin r m r' c :
+  step r m = Ok (r', c) ->
+  gx r r' /\
+  exists r1 new newm,
+    (r1 = r \/ (r_term r < m_term m /\ exists l, become_follower r (m_term m) l = Ok r1)) /\
+    r_read_states r' = r_read_states r ++ new /\
+    rir (r_msgs r') = rir (r_msgs r) ++ newm /\
+    read_origin r1 m r' new newm.
+Proof.
+  intros H. destruct (read_type (m_type m)) eqn:Hty.
+  2:{ apply step_other_fx in H; [|exact Hty]. split; [apply fx_gx; exact H|].
+      destruct H as (_ & A & _ & _ & B). exists r, [], []. rewrite !app_nil_r.
+      auto using read_origin_none. }
+  rewrite step_decompose in H. inv_bind H. apply step_prologue_spec in Hx.
+  destruct x as [[r1 c1]|r1].
+  - inversion H; subst. destruct Hx as [Hlf _]. split; [apply fx_gx; apply lf_fx; exact Hlf|].
+    destruct Hlf as (_ & _ & A & _ & _ & _ & _ & _ & B). exists r, [], []. rewrite !app_nil_r.
+    auto using read_origin_none.
+  - rewrite step_body_read_type in H by exact Hty. apply step_role_read in H; [|exact Hty].
+    destruct H as (Hg & new & newm & A & B & C0).
+    destruct Hx as [-> |(Hlt & l & Hbf)].
+    + split; [exact Hg|]. exists r, new, newm. auto.
+    + pose proof (become_follower_fx _ _ _ _ Hbf) as Hf.
+      split; [eapply gx_trans; [apply fx_gx; exact Hf|exact Hg]|].
+      destruct Hf as (_ & Frs & _ & _ & Frir). rewrite Frs in A. rewrite Frir in B.
+      exists r1, new, newm. split; [right; eauto|]. auto.
+Qed.
+
+(* C08: step never lowers the commit index *)
+Theorem step_commit_monotone r m r' c :
+  step r m = Ok (r', c) -> committed (r_log r) <= committed (r_log r').
+Proof. intros H. apply step_read_origin in H. apply H. Qed.
+
+(* C08: step keeps the ReadOnly representation invariant and the read-only option *)
+Theorem step_RoInv r m r' c :
+  step r m = Ok (r', c) ->
+  ro_option (r_read_only r') = ro_option (r_read_only r) /\
+  (RoInv (r_read_only r) -> RoInv (r_read_only r')).
+Proof. intros H. apply step_read_origin in H. destruct H as ((_ & _ & A & B) & _). auto. Qed.
